@@ -730,7 +730,7 @@ pub(super) fn load_conditional_formatting(
     if !result.is_empty() {
         let max_p = result.iter().map(|cf| cf.priority).max().unwrap_or(0);
         for cf in &mut result {
-            cf.priority = max_p + 1 - cf.priority;
+            cf.priority = (max_p - cf.priority).saturating_add(1);
         }
     }
 
